@@ -3,6 +3,7 @@ package vsim
 import (
 	"fmt"
 	"net"
+	"sort"
 
 	gnet "github.com/panjf2000/gnet/v2"
 	"golang.org/x/sys/unix"
@@ -409,6 +410,12 @@ func GenerateUDP(seed uint64, tier string) *Plan {
 	}
 	c.Ticker = r.Chance(1, 6)
 	c.TickMs = 10
+	if c.Ticker && r.Chance(1, 2) {
+		for n := r.Range(1, 4); n > 0; n-- {
+			c.TickAt = append(c.TickAt, r.Pick(3, 10, 30, 60, 150))
+		}
+		sort.Ints(c.TickAt)
+	}
 	n := r.Range(1, 14)
 	flood := r.Chance(1, 12)
 	if flood {
